@@ -4,10 +4,10 @@ CONSTANTS
   MaxOps = 4
   BlockOf <- BlockL1
   LockPg = 0
-  AllowWAL = FALSE
+  AllowWAL = TRUE
   FinModes = {"DELETE"}
-  AllowSpill = TRUE
-  AllowBeyond = FALSE
+  AllowSpill = FALSE
+  AllowBeyond = TRUE
   FixBeyond = TRUE
   AllowNoSync = FALSE
   FixOOB = TRUE
@@ -15,7 +15,7 @@ CONSTANTS
   AllowCrash = FALSE
   FixJournalNoPS = TRUE
   FixModeOnOpen = TRUE
-  AllowRetain = TRUE
+  AllowRetain = FALSE
   Emit = "idle"
 VIEW view
 INVARIANTS NoFault C04_Checksum C02_Image C02_Delta C02_Outcome C09_Chain CacheSound EmitInv
